@@ -89,7 +89,7 @@ DocSel(c, t) ==
 WalkAt(c, t, i) ==
     LET a == Chain(t)[i]
     IN  IF c[a].sel = "by" /\ ~(t = "Hash" /\ a # "hash") THEN SelRec("by", a)
-        ELSE IF c[a].sel = "key" THEN SelRec("key", a)
+        ELSE IF c[a].sel \in {"key", "idkey"} THEN SelRec(c[a].sel, a)
         ELSE SelRec("next", "-")
 
 \* the bad_attr fallback once the chain is exhausted
@@ -162,7 +162,8 @@ ByFn(mode, a, v) ==
 
 \* the value a field is compared / hashed through under outcome o
 Proj(o, mode, v) ==
-    IF o.k = "default" THEN v
+    IF o.k \in {"default", "idkey"} THEN v          \* "idkey": `key = $`, the field itself chosen EXPLICITLY (it still takes precedence
+                                                   \* over the keys of less specific attributes, like any other key)
     ELSE IF o.k = "key" THEN KeyFn(mode, o.a, v) ELSE ByFn(mode, o.a, v)
 
 Cmp3(x, y) == IF x < y THEN -1 ELSE IF x > y THEN 1 ELSE 0
@@ -175,7 +176,7 @@ FieldCmp(o, mode, x, y) ==
 \* Partially ordered field type (float-like): the value NaN is unequal to and incomparable with
 \* everything, itself included.  Only the field's OWN comparison is partial; keys are totally ordered.
 NaN == 7
-Partial(o, x, y) == o.pv /\ o.k = "default" /\ (x = NaN \/ y = NaN)
+Partial(o, x, y) == o.pv /\ o.k \in {"default", "idkey"} /\ (x = NaN \/ y = NaN)
 FieldEqP(o, mode, x, y) == ~Partial(o, x, y) /\ Proj(o, mode, x) = Proj(o, mode, y)
 FieldCmpP(o, mode, x, y) == IF Partial(o, x, y) THEN None ELSE FieldCmp(o, mode, x, y)
 
@@ -219,7 +220,7 @@ CmpO(O, mode, t, x, y) ==
 \* field itself: <<100, v>>; key of attribute a: <<110 + rank(a), k>>; hash(by): <<120, k>>
 FieldFeed(o, mode, v) ==
     IF o.o = "skip" THEN <<>>
-    ELSE IF o.k = "default" THEN <<100, v>>
+    ELSE IF o.k \in {"default", "idkey"} THEN <<100, v>>
     ELSE IF o.k = "key" THEN <<110 + AttrRank(o.a), KeyFn(mode, o.a, v)>>
     ELSE <<120, ByFn(mode, o.a, v)>>
 
@@ -280,5 +281,6 @@ EqCompilesField(fld, D) ==
     IN  \/ o.o = "skip"
         \/ o.o = "use" /\ o.k = "by"
         \/ o.o = "use" /\ o.k = "key" /\ fld.kty = "eq"
+        \/ o.o = "use" /\ o.k = "idkey" /\ fld.ty = "eq"
         \/ o.o = "use" /\ o.k = "default" /\ fld.ty = "eq"
 =============================================================================
